@@ -6,6 +6,7 @@ Iggy/Log/Refine.lean shows the storage model L1 computes the same answer from it
 judge compares the real server with this specification on every poll.
 -/
 import Iggy.Log.SpecRun
+import Iggy.Log.RefineRun
 namespace Iggy.Props.C02
 open Iggy.Log
 
@@ -51,5 +52,38 @@ theorem identity_ops_invisible (p : SPart) (off count : Nat) :
 /-! non-vacuity -/
 example : ((SPart.run exCfg none exHist).pollOffset 0 10).map (·.off) = [1, 2] := by decide
 example : ((SPart.run exCfg none exHist).pollLast 1).map (·.off) = [2] := by decide
+
+
+/-! ## on the storage model L1: the tiers compute the specification's answer -/
+
+/-- C02 on L1: whatever tier holds the messages — cache, unsaved buffer, one or several segments, one or
+several stored batches, cached or scanned index, stale cache after retention — a poll by offset
+returns exactly the specification's slice. Configuration (`cfg`) occurs only in reachability. -/
+theorem l1_poll_offset {cfg : Cfg} {p : Part} (hseg : 0 < cfg.segSize) (r : Reach cfg p) {off count : Nat}
+    (hc : 0 < count) : p.getByOffset off count = (abs p).pollOffset off count :=
+  getByOffset_refines (r.inv hseg) hc
+
+theorem l1_poll_exact {cfg : Cfg} {p : Part} (hseg : 0 < cfg.segSize) (r : Reach cfg p) {off count : Nat}
+    (hc : 0 < count) : p.getByOffset off count =
+      p.msgs.filter (fun m => max off p.firstStart ≤ m.off ∧ m.off < max off p.firstStart + count) :=
+  reach_poll_exact hseg r hc
+
+theorem l1_poll_first_last_next {cfg : Cfg} {p : Part} (hseg : 0 < cfg.segSize) (r : Reach cfg p)
+    {count : Nat} (hc : 0 < count) (grp : Bool) (cid : Nat) :
+    p.getFirst count = (abs p).pollFirst count ∧ p.getLast count = (abs p).pollLast count ∧
+    p.getNext grp cid count = (abs p).pollNext grp cid count :=
+  ⟨getFirst_refines (r.inv hseg) hc, getLast_refines (r.inv hseg) hc, getNext_refines (r.inv hseg) hc⟩
+
+/-- timestamp polls — proved for log files below 4 GiB (`_partial`: the index position is a u32 in the
+real code, so larger files are outside what the server supports) -/
+theorem l1_poll_timestamp_partial {cfg : Cfg} {p : Part} (hseg : 0 < cfg.segSize) (r : Reach cfg p)
+    (hsmall : ∀ s ∈ p.segs, logBytes s.log < 2^32) (ts count : Nat) :
+    p.getByTimestamp ts count = (abs p).pollTimestamp ts count :=
+  getByTimestamp_refines_partial (r.inv hseg) hsmall ts count
+
+/-- flush, background save and cache eviction never change any poll answer -/
+theorem l1_identity_ops {cfg : Cfg} {p : Part} (hseg : 0 < cfg.segSize) (r : Reach cfg p) (keep : Nat) :
+    abs (p.flush cfg) = abs p ∧ abs (p.save cfg) = abs p ∧ abs (p.evict keep) = abs p :=
+  ⟨(flush_refines (r.inv hseg)).2, (save_refines (r.inv hseg)).2, (evict_refines (r.inv hseg) keep).2⟩
 
 end Iggy.Props.C02
